@@ -66,7 +66,8 @@ def new_run_root():
 class DS:
     """One remote dataset of the simulated world."""
     __slots__ = ("name", "func_name", "func_module", "doc_name", "url", "pinned", "remote_filename", "slot", "folder",
-                 "gzip", "validate", "rows", "body", "expected", "sim_digest", "synthetic", "extra_kwargs")
+                 "gzip", "validate", "rows", "body", "expected", "sim_digest", "synthetic", "extra_kwargs", "style",
+                 "members")
 
 
 def _rows_from_rng(rnd, n, kind):
@@ -90,13 +91,34 @@ def _rows_from_rng(rnd, n, kind):
     return [(a, b) for a, b in zip(x, y)]
 
 
-def _encode_csv(rows):
-    return ("\n".join(f"{a!r},{b!r}" for a, b in rows) + "\n").encode()
+def _fmt(v, style):
+    if style == 1 and float(v).is_integer() and abs(v) < 1e15:
+        return str(int(v))                 # "3" instead of "3.0"
+    if style == 2:
+        return f"{v:.17e}"                 # scientific notation, round-trips exactly
+    return repr(v)
+
+
+def _encode_csv(rows, style=0):
+    """style: 0 repr + trailing newline, 1 integers without '.0', 2 scientific, 3 no trailing newline, 4 CRLF."""
+    sep = "\r\n" if style == 4 else "\n"
+    text = sep.join(f"{_fmt(a, style)},{_fmt(b, style)}" for a, b in rows)
+    return (text + ("" if style == 3 else sep)).encode()
+
+
+def _compress(raw, members=1):
+    """gzip with `members` concatenated members (valid gzip: cat a.gz b.gz, pigz -i, bgzip produce such files)."""
+    if members <= 1:
+        return _gzip.compress(raw, mtime=0)
+    lines = raw.splitlines(keepends=True)
+    cut = [len(lines) * i // members for i in range(members + 1)]
+    return b"".join(_gzip.compress(b"".join(lines[cut[i]:cut[i + 1]]), mtime=0) for i in range(members))
 
 
 def _finish_ds(ds):
-    raw = _encode_csv(ds.rows)
-    ds.body = _gzip.compress(raw, mtime=0) if ds.gzip else raw
+    style = getattr(ds, "style", 0) or 0
+    raw = _encode_csv(ds.rows, style)
+    ds.body = _compress(raw, getattr(ds, "members", 1) or 1) if ds.gzip else raw
     ds.expected = np.array(ds.rows, dtype=np.float64).reshape(len(ds.rows), 2)
     ds.sim_digest = K.REAL.get("sha256", hashlib.sha256)(ds.body).hexdigest()
     return ds
@@ -214,8 +236,9 @@ def named_world():
     return w
 
 
-def synthetic_ds(name, idx, rows, gz):
+def synthetic_ds(name, idx, rows, gz, style=0, members=1):
     ds = DS()
+    ds.style, ds.members = style, members
     ds.name = name
     ds.func_name = ds.func_module = ds.doc_name = None
     ds.url = f"https://sim.invalid/ndownloader/files/{1000 + idx}"
@@ -270,6 +293,7 @@ def gen_storm(st):
         size = st.weighted((4, 3, 2), "size-class")
         n = st.draw(3, 12) if size == 0 else (st.draw(13, 200) if size == 1 else st.draw(201, 1500))
         scn["rows"] = [n, st.draw(0, 2, "row-kind"), st.draw(0, 10 ** 6, "row-seed")]
+        scn["format"] = [st.weighted((4, 1, 1, 1, 1), "csv-style"), st.weighted((0, 3, 1, 1), "gzip-members") if scn["gzip"] else 1]
         scn["targets"] = ["syn-x"]
         if st.coin(1, 4, "secondary?"):
             scn["targets"].append("syn-y")
@@ -374,8 +398,9 @@ class Run:
         w = World()
         n, kind, seed = scn["rows"]
         rnd = random.Random(seed)
-        w.add(synthetic_ds("syn-x", 1, _rows_from_rng(rnd, n, kind), scn.get("gzip", False)))
-        w.add(synthetic_ds("syn-y", 2, _rows_from_rng(rnd, max(3, n // 2 + 1), kind), scn.get("gzip", False)))
+        fmt = scn.get("format", [0, 1])
+        w.add(synthetic_ds("syn-x", 1, _rows_from_rng(rnd, n, kind), scn.get("gzip", False), fmt[0], fmt[1]))
+        w.add(synthetic_ds("syn-y", 2, _rows_from_rng(rnd, max(3, n // 2 + 1), kind), scn.get("gzip", False), fmt[0], 1))
         return w
 
     def classify(self, full):
@@ -488,8 +513,8 @@ class Run:
             rows[i] = (rows[i][0], rows[i][1] + 1.0)
         else:
             rows = rows[: max(2, len(rows) // 2)]
-        raw = _encode_csv(rows)
-        return _gzip.compress(raw, mtime=0) if ds.gzip else raw
+        raw = _encode_csv(rows, getattr(ds, "style", 0) or 0)
+        return _compress(raw, getattr(ds, "members", 1) or 1) if ds.gzip else raw
 
     # -- loaders
     def make_loader(self, spec):
@@ -736,7 +761,20 @@ class Run:
         # leading transient failures as actually served (partition turns attempts into urlerror)
         terminal = kinds[f] if f < len(kinds) else None
         lenient = any(k in LENIENT or k == "unknown-url" for k in kinds)
-        if not lenient:
+        foreign = (not returned) and not any(exc is e for _, e in injected if e is not None) \
+            and not (terminal in CORRUPT and isinstance(exc, OSError))
+        if foreign and self.overlapped(a):
+            # an error that is neither an injected one nor the checksum error, in a loader that overlapped with
+            # others: the property promises a sound cache afterwards, not that every concurrent load succeeds
+            self.stats["probe:overlap-unexpected-exception"] += 1
+            return
+        if net_calls > r + 1 and not lenient:
+            self.fail("P3/retry-count", key, f"{who}: n_retries={r} allows at most {r + 1} attempts, saw {net_calls} ({kinds})")
+        if not lenient and not stable:
+            # the cache entry appeared or was replaced while this loader ran: it may legitimately stop retrying and
+            # use the entry, so only the upper bound on attempts (above) and the returned data (P2) are judged
+            self.stats["probe:retry-accounting-relaxed-slot-changed"] += 1
+        elif not lenient:
             if f > r:
                 if net_calls != r + 1:
                     self.fail("P3/retry-count", key, f"{who}: n_retries={r}, {f}+ consecutive transient failures served; "
@@ -1053,6 +1091,7 @@ def base_scenarios():
                 pattern = ["urlerror", "timeout"][:nf]
                 actor = _actor_spec("syn-x", force=force, n_retries=2, delay=0.25, plan=_fail_plan(pattern), split=3)
                 out.append({"gen": "scn", "world": "synthetic", "gzip": gz, "rows": [40 if not gz else 700, 1, 7 + nf],
+                            "format": [nf if not gz else 0, 1 + nf if gz else 1],
                             "targets": ["syn-x"], "setup": setup, "home": "env", "discipline": "serial", "enabled": [],
                             "partition": None, "actors": [actor]})
     names = list(named_world().ds)
@@ -1073,10 +1112,12 @@ def retry_scenarios(sample_rng):
                 pats = sample_rng.sample(pats, 16)
             for pat in pats:
                 for terminal in ("ok", "corrupt_flip", "fatal", "cross_served"):
-                    actor = _actor_spec("syn-x", n_retries=r, delay=0.5, plan=_fail_plan(list(pat), terminal, chunks=1))
-                    out.append({"gen": "scn", "world": "synthetic", "gzip": (f + r) % 2 == 1, "rows": [12, 2, r * 10 + f],
-                                "targets": ["syn-x"], "setup": "cold", "home": "env", "discipline": "serial",
-                                "enabled": [], "partition": None, "actors": [actor]})
+                    for setup, force in (("cold", False), ("warm", True)):     # first download, and forced refresh
+                        actor = _actor_spec("syn-x", n_retries=r, delay=0.5, force=force,
+                                            plan=_fail_plan(list(pat), terminal, chunks=1))
+                        out.append({"gen": "scn", "world": "synthetic", "gzip": (f + r) % 2 == 1,
+                                    "rows": [12, 2, r * 10 + f], "targets": ["syn-x"], "setup": setup, "home": "env",
+                                    "discipline": "serial", "enabled": [], "partition": None, "actors": [actor]})
     return out
 
 
@@ -1131,7 +1172,7 @@ def plan(tier, verif_seed):
         pairs = rng.sample(pairs, min(len(pairs), 400))
     for a, b in pairs:
         units.append({"gen": "scn", "scenario": pair_scenario(a, b)})
-    n_storm = int(os.environ.get("VERIF_STORMS", "0")) or (24000 if tier == "quick" else 1500000)
+    n_storm = int(os.environ.get("VERIF_STORMS", "0")) or (16000 if tier == "quick" else 600000)
     units.extend({"gen": "storm"} for _ in range(n_storm))
     return units
 
@@ -1143,7 +1184,8 @@ def describe():
                 "home on tmpfs, scheduled one at a time by a seeded scheduler with a fake remote, virtual sleep and "
                 "kill-at-yield-point crashes, followed by a fault-free calm phase (fresh load, then offline load). "
                 "Generators: G-sweep = every crash point of each base scenario (solo and with a second loader), "
-                "G-retry = the table n_retries 0..4 x 0..n_retries+2 URLError/TimeoutError patterns x terminal outcome, "
+                "G-retry = the table n_retries 0..4 x 0..n_retries+2 URLError/TimeoutError patterns x terminal outcome x "
+                "{first download, forced refresh of an existing entry}, "
                 "G-pairs = ordered pairs of named remote datasets loaded into one home, G-storm = seeded swarm over all "
                 "of it. An execution is non-trivial when at least one fault (network fault, corrupt body, crash) fired "
                 "or at least two storm loaders ran; distinct = distinct SHA-256 of the full event log "
